@@ -160,7 +160,8 @@ fn main() {
                             // and limits at the edges of the integer types (a limit is a NonZeroUsize)
                             if gi % 8 == 0 { for n in [usize::MAX, usize::MAX - 1, (u32::MAX as usize) + 1, u32::MAX as usize, (i32::MAX as usize) + 1, i64::MAX as usize, (i64::MAX as usize) + 1] { v.push(format!("m1,d0,l{}", n)); } }
                             v }
-                        _ => vec!["m1,d0,l_".into()],
+                        // the failure report is the same whether detailed attempts are collected or not: every third grammar also with them on
+                        _ => if gi % 3 == 1 { vec!["m1,d0,l_".into(), "m1,d1,l_".into()] } else { vec!["m1,d0,l_".into()] },
                     };
                     let these_inputs = if profile == "C12" { // fewer inputs per limit
                         let mut v: Vec<String> = inputs.iter().filter(|x| x.chars().count() == len).take(12).cloned().collect(); v.extend(inputs.iter().rev().take(4).cloned()); v } else { inputs.clone() };
